@@ -173,6 +173,46 @@ fn main() {
                 println!("{}\t{}\t{}", i, dig.join(","), smp);
             }
         }
+        "bench" => {
+            // micro-benchmark of the message oracle's components (single thread)
+            let n = 1_000_000u64;
+            let mut p = vec![0u8; 21];
+            spec::msg::set_bits(&mut p, 0, 6, 1);
+            let t = Instant::now();
+            let mut acc = 0u64;
+            for i in 0..n {
+                spec::msg::set_bits(&mut p, 8, 30, i);
+                if let Ok(m) = ais::messages::parse(&p) {
+                    acc += matches!(m, ais::messages::AisMessage::PositionReport(_)) as u64;
+                }
+            }
+            println!("decode only      {:>6.0} ns/case ({})", t.elapsed().as_nanos() as f64 / n as f64, acc);
+            let t = Instant::now();
+            for i in 0..n {
+                spec::msg::set_bits(&mut p, 8, 30, i);
+                if let subj::DecodeOut::Ok(f) = subj::decode(&p) {
+                    acc += f.len() as u64;
+                }
+            }
+            println!("decode + canon   {:>6.0} ns/case ({})", t.elapsed().as_nanos() as f64 / n as f64, acc);
+            let t = Instant::now();
+            for i in 0..n {
+                spec::msg::set_bits(&mut p, 8, 30, i);
+                acc += spec::msg::expect(&p).fields.len() as u64;
+            }
+            println!("expect           {:>6.0} ns/case ({})", t.elapsed().as_nanos() as f64 / n as f64, acc);
+            let t = Instant::now();
+            let mut mm = Vec::new();
+            for i in 0..n {
+                spec::msg::set_bits(&mut p, 8, 30, i);
+                let e = spec::msg::expect(&p);
+                if let subj::DecodeOut::Ok(f) = subj::decode(&p) {
+                    spec::msg::compare(&e, &f, &mut mm);
+                    acc += mm.len() as u64 + canon::fields_digest(&f) % 2;
+                }
+            }
+            println!("all + compare    {:>6.0} ns/case ({})", t.elapsed().as_nanos() as f64 / n as f64, acc);
+        }
         "hist" => {
             if args.len() < 4 {
                 usage();
